@@ -46,12 +46,12 @@ ALL_KINDS = ['word', 'word', 'atom', 'unk', 'unkarg', 'unkarg2', 'label', 'index
              'itemize', 'enumerate', 'itemlab', 'verb', 'verbatim', 'inline', 'display', 'tabular', 'proof',
              'theorem', 'tikz', 'usermac', 'usermac2', 'usermacopt', 'usermacoptonly', 'defmac', 'defbymac', 'latexname', 'texorpdf', 'framebox',
              'unkenv', 'figure', 'minipage', 'vanish', 'hspace', 'phantom', 'quad', 'newline', 'group',
-             'textbackslash', 'gls', 'glsentry', 'url', 'removed_ext', 'twice_ext', 'mathtext', 'footcite', 'accent', 'lstlisting',
+             'textbackslash', 'gls', 'glsentry', 'url', 'tikzin', 'usermacml', 'removed_ext', 'twice_ext', 'mathtext', 'footcite', 'accent', 'lstlisting',
              'includegraphics', 'emph', 'par', 'cref']
 
 ALL_PKGS = {'amsmath', 'amsthm', 'babel', 'biblatex', 'circuitikz', 'geometry', 'glossaries', 'graphicx',
             'hyperref', 'listings', 'mathtools', 'pgfplots', 'tikz', 'xcolor', 'xspace'}
-KIND_PKG = {'textcolor': 'xcolor', 'href': 'hyperref', 'url': 'hyperref', 'texorpdf': 'hyperref', 'tikz': 'tikz',
+KIND_PKG = {'textcolor': 'xcolor', 'href': 'hyperref', 'url': 'hyperref', 'tikzin': 'tikz', 'texorpdf': 'hyperref', 'tikz': 'tikz',
             'lstlisting': 'listings', 'gls': 'glossaries', 'glsentry': 'glossaries', 'footcite': 'biblatex', 'proof': 'amsthm',
             'includegraphics': 'graphicx', 'removed_ext': 'ext', 'twice_ext': 'ext', 'cref': 'cleveref'}
 PACK_CHOICES = ['*', '*', '*', '*', '', '', 'amsmath,amsthm', 'xcolor,hyperref,graphicx', 'biblatex,glossaries',
@@ -781,6 +781,24 @@ class Gen:
         self.hidden_rich()
         self.w('\\end{' + env + '}')
 
+    def k_tikzin(self):
+        """a small picture inside running text or inside an argument (footnote, caption, ...): removed without trace,
+        the text around it stays"""
+        self.w('\\begin{tikzpicture}')
+        self.hidden_rich()
+        self.w(self.rnd.choice([' ', '']) + '\\end{tikzpicture}')
+
+    def k_usermacml(self):
+        """user macro whose body spans several lines: a first line without text (with trailing blanks), an indented
+        second line; called at the start of a source line or inside a line"""
+        if self.brace == 0 and self.rnd.random() < .6:
+            self.w('\n')
+        st = self.pos()
+        self.w('\\ykm')
+        en = self.pos()
+        self.gen('ybodyh', st + 1, en, 'mlbody:6')
+        self.w('{}')
+
     def k_removed_ext(self):
         self.need_ext = True
         st = self.pos()
@@ -1020,7 +1038,8 @@ PREAMBLE = ('\\newcommand{\\ymaca}[1]{ybodya #1 ybodyb}\n'
             '\\newcommand{\\ymacd}[1][ydfltb]{ybodye #1}\n'
             '\\newcommand{\\ydefm}[2]{\\newcommand{#1}{#2 ybodyf}}\n'
             '\\newcommand{\\ysite}[1]{\\url{ysitepre/#1}}\n'
-            '\\newcommand{\\ytsec}[1]{\\section{#1 ybodyg \\LaTeX}}\n')
+            '\\newcommand{\\ytsec}[1]{\\section{#1 ybodyg \\LaTeX}}\n'
+            '\\newcommand{\\ykm}{\\index{hkmQ}     \n      ybodyh}\n')
 CREFSED = ('s/\\\\cref{ylab}/ycrefig~(7)/g\n'
            's/\\\\Cref{ylab}/Ycrefig~(7)/g\n'
            's/\\\\cref{yl2}/ycreq (1) to (2)/g\n'
@@ -1038,11 +1057,14 @@ def random_document(rnd, size=None, lang='en', kinds=None, max_depth=5, glossary
         glossary_file = None
     g = Gen(rnd, lang=lang, kinds=kinds, max_depth=max_depth, glossary=bool(glossary_file), pkgs=pk)
     g.nodes_left = max_nodes
+    if rnd.random() < .08:
+        # the file starts with a skipped region (offset 0)
+        g.w('%%% LT-SKIP-BEGIN\n' + g.hid_txt() + ' \\section{' + g.hid_txt() + '}\n%%% LT-SKIP-END\n')
     g.w(preamble_extra)
     if preamble:
         g.w(PREAMBLE)
     else:
-        g.pool = [k for k in g.pool if not k.startswith('usermac')]
+        g.pool = [k for k in g.pool if not k.startswith('usermac') and k not in ('usersec', 'defbymac', 'url')]
     if theorems:
         # (yp: the generated title is longer than the \begin{yp} that produces it)
         # (yq: the title is written with macros: accents, a font macro with braces)
